@@ -271,6 +271,8 @@ func runC14(c *eng.Ctx) {
 		c.Rule("R14.2", "K6")
 		checkHeaderLayout(c)
 	}
+	c.Rule("R14.2", "K6")
+	ruleLengthFieldWidths(c)
 
 	// ---- R14.3 checksum guard
 	c.Rule("R14.3", "K1")
@@ -401,6 +403,7 @@ func runC14(c *eng.Ctx) {
 			}
 		}
 	}
+	ruleStoredMessageIsFresh(c)
 	if fn := c.Fn("server.getMessage"); fn != nil {
 		um := eng.CallsIn(fn, "server/protocol.UnmarshalPublish")
 		if len(um) != 1 {
@@ -426,6 +429,20 @@ func runC14(c *eng.Ctx) {
 	// ---- R14.7 what arrives over NATS cannot reach a panic
 	c.Rule("R14.7", "K3")
 	rulePanicsOnMessagePath(c)
+
+	// ---- R02.3 (shared clause) a replication response reaches the log only when it is longer than a message-set header:
+	// a bare 28-byte header announcing size 0 would be indexed as a message, and the first reader of that offset fails
+	c.Rule("R02.3", "K1")
+	if fn := c.Fn("server.(*partition).handleReplicationResponse"); fn != nil {
+		ap := eng.CallsIn(fn, cl+"CommitLog.AppendMessageSet")
+		if len(ap) != 1 {
+			c.Unresolved("AppendMessageSet in handleReplicationResponse")
+		} else {
+			longEnough := eng.CmpEdges(fn, eng.Len(nil), eng.IntConst(28), eng.GT)
+			g, w := eng.GuardedBy(fn, ap[0].(ssa.Instruction), longEnough)
+			c.Check(g && len(longEnough) > 0, "follower append requires len(data) > 28", c.Pos(ap[0].(ssa.Instruction)), "dominated by the edge", "replicated data is appended without len(data) > 28 (path "+w.String()+"): a header-only message set is stored and the next read of that offset fails")
+		}
+	}
 
 	// ---- R14.6 the malformed-message-set error reaches the handler's identity test unwrapped
 	roots := []string{"server.(*partition).handleReplicationResponse"}
